@@ -173,7 +173,8 @@ theorem Dead.stable (cid : Nat) : Stable (Dead cid) where
   steps _ _ _ h := h
   incall _ _ _ _ _ h _ := h
   simple s op s' r _ h hs := Dead_simple cid s op s' r h hs
-  collect s _ h := (Dead.prims cid).collect (fun _ _ h => h) (fun _ _ h => h) h
+  collect s _ h := (Dead.prims cid).collect (fun _ _ h => h) (fun _ _ h => h)
+    (dropG_of (fun _ _ h => h) (Dead_forceDelG cid)) h
   pro _ _ _ _ h hi := Dead.emitPro h hi
   erase _ i m _ h := (Dead.prims cid).eraseCell i m h
   unref _ i _ h := (Dead.prims cid).unrefExec i h
